@@ -39,13 +39,16 @@ class Walker:
         self.consts, self.mod, self.fn, self.helpers = consts, mod, fn, helpers
         self.leaves = []
 
-    def fold(self, node):
+    def fold(self, node, env=None):
         if isinstance(node, ast.Constant) and isinstance(node.value, int):
             return node.value
+        if env is not None and isinstance(node, ast.Name) and isinstance(env.get(node.id), tuple) and env[node.id][:1] == ("const",) \
+                and isinstance(env[node.id][1], int) and not isinstance(env[node.id][1], bool):
+            return env[node.id][1]
         if isinstance(node, ast.Name) and isinstance(self.consts.get(node.id), int):
             return self.consts[node.id]
         if isinstance(node, ast.BinOp):
-            a, b = self.fold(node.left), self.fold(node.right)
+            a, b = self.fold(node.left, env), self.fold(node.right, env)
             if a is not None and b is not None:
                 if isinstance(node.op, ast.BitOr):
                     return a | b
@@ -55,17 +58,25 @@ class Walker:
                     return a << b
         return None
 
-    def pred(self, node):
-        """-> ('zero',) | ('set', M) | ('unset', M) | ('not', p)"""
+    def pred(self, node, env=None):
+        """-> ('zero',) | ('set', M) | ('unset', M) | ('not', p) | ('lit', bool)"""
+        env = env if env is not None else {}
         if isinstance(node, ast.UnaryOp) and isinstance(node.op, ast.Not):
-            return ("not", self.pred(node.operand))
+            return ("not", self.pred(node.operand, env))
         if isinstance(node, ast.BoolOp):
-            return ("and" if isinstance(node.op, ast.And) else "or",) + tuple(self.pred(v) for v in node.values)
+            return ("and" if isinstance(node.op, ast.And) else "or",) + tuple(self.pred(v, env) for v in node.values)
+        if isinstance(node, ast.Name) and isinstance(env.get(node.id), tuple) and env[node.id][:1] == ("pred",):
+            return env[node.id][1]
+        if isinstance(node, ast.Compare) and len(node.ops) == 1 and isinstance(node.ops[0], (ast.Eq, ast.NotEq)) \
+                and match(node, "self._value == 0") is None and match(node, "0 == self._value") is None:
+            a, b = self.sym(node.left, env), self.sym(node.comparators[0], env)
+            if a[0] == "const" and b[0] == "const":
+                return ("lit", (a[1] == b[1]) == isinstance(node.ops[0], ast.Eq))
         if match(node, "self._value == 0") is not None or match(node, "0 == self._value") is not None:
             return ("zero",)
         if isinstance(node, ast.Call) and isinstance(node.func, ast.Attribute) and isinstance(node.func.value, ast.Name) \
                 and node.func.value.id == "self" and node.func.attr in self.helpers and len(node.args) == 1:
-            M = self.fold(node.args[0])
+            M = self.fold(node.args[0], env)
             if M is None:
                 raise AnalysisError(f"N1: cannot fold mask {norm(node.args[0])} at {self.mod.relpath}:{node.lineno}")
             return (self.helpers[node.func.attr], M)
@@ -80,6 +91,8 @@ class Walker:
             v = self.fold(node)
             if v is not None:
                 return ("const", v)
+            if node.id in TABLES:
+                return ("table", node.id)
             raise AnalysisError(f"N1: unbound local {node.id} at {self.mod.relpath}:{node.lineno} "
                                 f"(used on a path where it is not assigned)")
         if match(node, "self._value") is not None:
@@ -88,7 +101,7 @@ class Walker:
             return ("T",)
         if isinstance(node, ast.BinOp) and isinstance(node.op, (ast.BitAnd, ast.RShift)):
             a = self.sym(node.left, env)
-            b = self.fold(node.right)
+            b = self.fold(node.right, env)
             if b is None:
                 raise AnalysisError(f"N1: cannot fold {norm(node.right)}")
             return ("and" if isinstance(node.op, ast.BitAnd) else "shr", a, b)
@@ -98,16 +111,50 @@ class Walker:
                 if isinstance(p, ast.Constant):
                     parts.append(p.value)
                 else:
-                    parts.append(self.sym(p.value, env))
+                    v = self.sym(p.value, env)
+                    if v[0] == "const" and isinstance(v[1], str) and p.format_spec is None and p.conversion == -1:
+                        parts.append(v[1])  # a literal text spliced in
+                    else:
+                        parts.append(v)
+            merged = []
+            for x in parts:
+                if isinstance(x, str) and merged and isinstance(merged[-1], str):
+                    merged[-1] += x
+                else:
+                    merged.append(x)
+            parts = merged
             return ("f", tuple(parts))
         if isinstance(node, ast.IfExp):
-            return ("ite", self.pred(node.test), self.sym(node.body, env), self.sym(node.orelse, env))
-        if isinstance(node, ast.Subscript) and isinstance(node.value, ast.Name) and node.value.id in TABLES:
-            return ("row", node.value.id, self.sym(node.slice, env))
+            p = self.pred(node.test, env)
+            if p[0] == "lit":
+                return self.sym(node.body if p[1] else node.orelse, env)
+            return ("ite", p, self.sym(node.body, env), self.sym(node.orelse, env))
+        if isinstance(node, ast.Subscript):
+            base = self.sym(node.value, env) if not (isinstance(node.value, ast.Name) and node.value.id in TABLES
+                                                     and node.value.id not in env) else ("table", node.value.id)
+            if base[0] == "table":
+                return ("row", base[1], self.sym(node.slice, env))
+            if base[0] == "row" and isinstance(node.slice, ast.Constant) and node.slice.value in (0, 1):
+                return ("name" if node.slice.value == 0 else "desc", base[1], base[2])
+        if isinstance(node, ast.Tuple):
+            return ("tuple", tuple(self.sym(x, env) for x in node.elts))
+        if isinstance(node, ast.Call) and isinstance(node.func, ast.Attribute) and node.func.attr in ("lower", "upper", "title", "capitalize") \
+                and not node.args:
+            v = self.sym(node.func.value, env)
+            if v[0] == "const" and isinstance(v[1], str):
+                return ("const", getattr(v[1], node.func.attr)())
+        if isinstance(node, ast.Call) and isinstance(node.func, ast.Attribute) and isinstance(node.func.value, ast.Name) \
+                and node.func.value.id == "self" and node.func.attr in self.helpers:
+            return ("pred", self.pred(node, env))
+        if isinstance(node, ast.Compare):
+            p = self.pred(node, env)
+            if p[0] == "lit":
+                return ("const", p[1])
+            return ("pred", p)
         if isinstance(node, ast.List) and not node.elts:
             return ("list",)
         if isinstance(node, ast.Call) and isinstance(node.func, ast.Name) and node.func.id == "TPM_RC":
-            mask = self.fold(node.args[0]) if node.args else None
+            mask = self.fold(node.args[0], env) if node.args else None
             kw = {k.arg: self.sym(k.value, env) for k in node.keywords}
             if mask is None:
                 raise AnalysisError(f"N1: cannot fold row mask {norm(node)}")
@@ -121,7 +168,10 @@ class Walker:
         for i, st in enumerate(stmts):
             rest = stmts[i + 1:]
             if isinstance(st, ast.If):
-                p = self.pred(st.test)
+                p = self.pred(st.test, env)
+                if p[0] == "lit":
+                    self.walk((st.body if p[1] else st.orelse) + rest, dict(env), conds, list(rows))
+                    return
                 self.walk(st.body + rest, dict(env), conds + [(p, True)], list(rows))
                 self.walk(st.orelse + rest, dict(env), conds + [(p, False)], list(rows))
                 return
@@ -138,14 +188,20 @@ class Walker:
             if isinstance(st, ast.Assign) and len(st.targets) == 1:
                 t = st.targets[0]
                 if isinstance(t, ast.Name):
-                    if isinstance(st.value, ast.List) and not st.value.elts:
+                    if isinstance(st.value, ast.List) and (not st.value.elts or all(
+                            isinstance(x, ast.Call) and isinstance(x.func, ast.Name) and x.func.id == "TPM_RC" for x in st.value.elts)):
                         env[t.id] = ("rows",)
+                        rows.extend(self.sym(x, env) for x in st.value.elts)
                     else:
                         env[t.id] = self.sym(st.value, env)
                     continue
-                if isinstance(t, ast.Tuple) and len(t.elts) == 2 and all(isinstance(e, ast.Name) for e in t.elts):
+                if isinstance(t, ast.Tuple) and all(isinstance(e, ast.Name) for e in t.elts):
                     v = self.sym(st.value, env)
-                    if v[0] != "row":
+                    if v[0] == "tuple" and len(v[1]) == len(t.elts):
+                        for e, x in zip(t.elts, v[1]):
+                            env[e.id] = x
+                        continue
+                    if v[0] != "row" or len(t.elts) != 2:
                         raise AnalysisError(f"N1: tuple assignment from non-table at line {st.lineno}")
                     env[t.elts[0].id] = ("name", v[1], v[2])
                     env[t.elts[1].id] = ("desc", v[1], v[2])
@@ -172,6 +228,8 @@ def holds(p, v):
         return v & p[1] == p[1]
     if k == "unset":
         return v & p[1] == 0
+    if k == "lit":
+        return p[1]
     if k == "not":
         return not holds(p[1], v)
     if k == "and":
